@@ -1,7 +1,7 @@
 ---------------------------- MODULE Simplify_Conf_Trace ----------------------------
 (* Extended coverage (X03): the real simplifiers against the implementation-shaped transcriptions that SimplifyMC  *)
-(* model-checks - not only the properties of C12 but the very output: Douglas-Peucker = DPImpl (first strict         *)
-(* maximum splits), radial = RadialImpl, Visvalingam = one of VisImplResults (least effective area first, ties        *)
+(* model-checks - not only the properties of C12 but the very output: Douglas-Peucker = one of DPImplResults (a maximum *)
+(* splits; exact ties free), radial = RadialImpl, Visvalingam = one of VisImplResults (least effective area first, ties        *)
 (* free).  This is what lets the model-checked facts about the transcriptions be read as facts about the code.        *)
 (* Same events as Simplify_Trace; judged for inputs of at most 9 vertices.                                            *)
 EXTENDS Simplify, TLC, Json, IOUtils
@@ -12,7 +12,7 @@ Keep(e) == IF e.keep = 0 THEN DefaultKeep(e.in, IsRing(e)) ELSE e.keep
 Big == 1000000
 VisSet(e) == {[i \in 1..Len(r) |-> e.in[r[i]]] : r \in VisImplResults(e.in, IF e.exact = 1 THEN Big ELSE e.n, IF e.exact = 1 THEN 1 ELSE e.d, Keep(e))}
 Ok(e) == \/ e.k # "simp" \/ Len(e.in) > 9
-         \/ CASE e.alg = "dp" -> e.out = DPImpl(e.in, e.n, e.d)
+         \/ CASE e.alg = "dp" -> e.out \in DPImplResults(e.in, e.n, e.d)
               [] e.alg = "radial" -> e.out = RadialImpl(e.in, e.n, e.d)
               [] e.alg = "vis" -> e.out \in VisSet(e)
               [] OTHER -> FALSE
